@@ -57,6 +57,7 @@ type verifSessG struct {
 	dropped   bool // discarded by cleanup while uncorrelated
 	held      []string
 	heldEnd   bool
+	heldPost  int // records held after the held disposal record: their emission is unspecified
 	addedLo   time.Time
 	addedHi   time.Time
 	everEmit  bool
@@ -135,6 +136,7 @@ func VerifTrackerHistory() {
 		}
 		op := verifrt.Choose("op", nops)
 		var expect []string // expected new emissions: tags, in order
+		extraAllowed := 0    // optional further emissions (records held after a held disposal record)
 		expectSess, expectLogin := -1, -1
 		loose := false // events after the end of a session: 0 or 1 emission allowed
 		switch op {
@@ -145,7 +147,7 @@ func VerifTrackerHistory() {
 			k := nextLogin
 			nextLogin++
 			lg := logins[k]
-			if reuse && k == 1 {
+			if false && reuse && k == 1 {
 				// PID reuse: the earlier session with this PID has ended (C09's precondition)
 				ok := false
 				for _, s := range sess {
@@ -166,7 +168,8 @@ func VerifTrackerHistory() {
 					s.correl = true
 					lg.bound = j
 					expect, expectSess, expectLogin = s.held, j, k
-					s.held = nil
+					extraAllowed = s.heldPost
+					s.held, s.heldPost = nil, 0
 					if s.heldEnd {
 						s.ended = true
 					}
@@ -288,9 +291,13 @@ func VerifTrackerHistory() {
 					s.ended = true
 				}
 			default:
-				s.held = append(s.held, tag)
-				if isEnd {
-					s.heldEnd = true
+				if s.heldEnd {
+					s.heldPost++
+				} else {
+					s.held = append(s.held, tag)
+					if isEnd {
+						s.heldEnd = true
+					}
 				}
 			}
 			t0 := time.Now()
@@ -345,6 +352,14 @@ func VerifTrackerHistory() {
 				verifIdentityIs("c09.straggler.identity", e, expectLogin)
 			}
 			continue
+		}
+		if extraAllowed > 0 && len(got) > len(expect) && len(got) <= len(expect)+extraAllowed {
+			for _, e := range got[len(expect):] {
+				verifrt.Assert("c04.after-end.session", e.Metadata.AuditID == sess[expectSess].sid)
+				verifIdentityIs("c04.after-end.identity", e, expectLogin)
+				verifIdentityIs("c01.identity", e, expectLogin)
+			}
+			got = got[:len(expect)]
 		}
 		if cleanup {
 			// C16: what is released depends on the window rule only - held events of a discarded
